@@ -7,12 +7,50 @@ it is computed by two independent walkers, one over the model and one over the r
 """
 from __future__ import annotations
 
+import collections
+import dataclasses
+import typing
+
 from sim import kernel
 from sim.kernel import Violation
 
 np = jax = nnx = None
 NODE_TYPES = {}
 VTYPES = {}
+# generic pytree containers (everything flax handles with its generic pytree node implementation, i.e. a pytree that is
+# not exactly list / tuple / dict): classes are made on demand, one per (kind, declared field order), and live as long
+# as the process (a class is a pure function of its key, so runs stay independent of each other)
+GENERIC_KINDS = ('namedtuple', 'odict', 'struct')
+GENERIC_TYPES = {}
+GENERIC_FIELDS = ['a', 'b', 'c', 'm', 'w']  # all in NAMES: path filters reach inside the containers
+STRUCT_STATIC_FIELD = 'label'  # the struct kind carries one non-pytree (static) dataclass field, declared last
+
+
+def generic_type(kind, fields):
+  """The container class for `fields` in this DECLARATION order (None for odict: the order is per instance)."""
+  if kind == 'odict':
+    return collections.OrderedDict
+  key = (kind, tuple(fields))
+  if key not in GENERIC_TYPES:
+    if kind == 'namedtuple':
+      GENERIC_TYPES[key] = collections.namedtuple('NT_' + '_'.join(fields), list(fields))
+    elif kind == 'struct':
+      from flax import struct
+
+      ann = {f: typing.Any for f in fields}
+      ann[STRUCT_STATIC_FIELD] = typing.Any
+      ns = {'__annotations__': ann, STRUCT_STATIC_FIELD: struct.field(pytree_node=False, default=None)}
+      GENERIC_TYPES[key] = struct.dataclass(type('ST_' + '_'.join(fields), (), ns))
+    else:
+      raise ValueError(kind)
+  return GENERIC_TYPES[key]
+
+
+def order_is_involution(fields):
+  """Is the permutation taking the sorted keys to the declared order its own inverse?"""
+  srt = sorted(fields)
+  p = [srt.index(f) for f in fields]
+  return all(p[p[i]] == i for i in range(len(p)))
 
 
 def setup():
@@ -70,11 +108,12 @@ class MVar:
 
 
 class MNode:
-  __slots__ = ('id', 'kind', 'tname', 'attrs')
+  __slots__ = ('id', 'kind', 'tname', 'attrs', 'order')
 
   def __init__(self, id, kind, tname):
     self.id, self.kind, self.tname = id, kind, tname
     self.attrs = {}  # key -> ('static', v) | ('array', ndarray) | ('ref', MNode|MVar)
+    self.order = None  # generic pytree containers only: the keys in declaration / insertion order
 
 
 def arr_rec(a):
@@ -102,6 +141,9 @@ def canon_model(root):
       return ('node', n, x.tname, [(k, entry(x.attrs[k])) for k in sorted(x.attrs)])
     if x.kind == 'dict':
       return ('dict', [(k, entry(x.attrs[k])) for k in sorted(x.attrs)])
+    if x.kind in GENERIC_KINDS:
+      # which child sits under which field, fields in declaration order
+      return (x.kind, x.tname, [(k, entry(x.attrs[k])) for k in x.order])
     return (x.kind, [entry(x.attrs[k]) for k in sorted(x.attrs)])
 
   def entry(e):
@@ -128,14 +170,20 @@ def canon_real(root):
         return ('ref', index[id(x)])
       index[id(x)] = n = len(index)
       return ('node', n, type(x).__name__, [(k, go(v)) for k, v in sorted(vars(x).items()) if k != '_object__state'])
+    if isinstance(x, collections.OrderedDict):
+      return ('odict', 'OrderedDict', [(k, go(v)) for k, v in x.items()])
     if isinstance(x, dict):
       return ('dict', [(k, go(x[k])) for k in sorted(x)])
     if isinstance(x, list):
       return ('list', [go(v) for v in x])
+    if isinstance(x, tuple) and hasattr(x, '_fields'):
+      return ('namedtuple', type(x).__name__, [(f, go(v)) for f, v in zip(x._fields, tuple.__iter__(x))])
     if isinstance(x, tuple):
       return ('tuple', [go(v) for v in x])
     if isinstance(x, (np.ndarray, jax.Array)):
       return ('array',) + arr_rec(x)
+    if dataclasses.is_dataclass(x) and not isinstance(x, type):
+      return ('struct', type(x).__name__, [(f.name, go(vars(x)[f.name])) for f in dataclasses.fields(x)])
     return ('static', repr(x))
 
   return go(root)
@@ -160,6 +208,9 @@ def real_objects(root):
     elif isinstance(x, (list, tuple)):
       for v in x:
         go(v)
+    elif dataclasses.is_dataclass(x) and not isinstance(x, type):
+      for f in dataclasses.fields(x):
+        go(vars(x).get(f.name))
 
   go(root)
   return seen
@@ -229,6 +280,28 @@ def model_occurrences(root):
 
   go(root, (), None)
   return out
+
+
+def model_array_in_container(root):
+  """Does a raw array sit directly inside a non-module container (plain or generic)?  Such a leaf is part of the state
+  but cannot be written back: the containers are immutable nodes for flax (`update` raises ValueError by design)."""
+  seen = set()
+
+  def go(x):
+    if isinstance(x, MVar):
+      return False
+    if x.kind == 'module':
+      if x.id in seen:
+        return False
+      seen.add(x.id)
+    for e in x.attrs.values():
+      if e[0] == 'array' and x.kind != 'module':
+        return True
+      if e[0] == 'ref' and go(e[1]):
+        return True
+    return False
+
+  return go(root)
 
 
 def model_paths_count(root):
@@ -411,6 +484,39 @@ class Heap:
     self.model[nid].attrs[name] = ('ref', m)
     return i
 
+  def set_generic(self, nid, name, kind, fields, items, label=None):
+    """A fresh, never-aliased generic pytree container (namedtuple / OrderedDict / flax.struct dataclass) whose keys
+    are `fields` in this declaration (insertion) order; items: one of ('ref', id) | ('static', v) |
+    ('array', ndarray, as_jax) per field."""
+    i = self._id()
+    cls = generic_type(kind, fields)
+    m = MNode(i, kind, cls.__name__)
+    m.order = list(fields)
+    vals = []
+    for f, it in zip(fields, items):
+      if it[0] == 'ref':
+        m.attrs[f] = ('ref', self.model[it[1]])
+        vals.append(self.real[it[1]])
+      elif it[0] == 'array':
+        m.attrs[f] = ('array', it[1])
+        vals.append(jnp.asarray(it[1]) if it[2] else it[1].copy())
+      else:
+        m.attrs[f] = ('static', it[1])
+        vals.append(it[1])
+    if kind == 'namedtuple':
+      r = cls(*vals)
+    elif kind == 'odict':
+      r = collections.OrderedDict(zip(fields, vals))
+    else:
+      r = cls(*vals, **{STRUCT_STATIC_FIELD: label})
+      m.attrs[STRUCT_STATIC_FIELD] = ('static', label)
+      m.order.append(STRUCT_STATIC_FIELD)
+    self.model[i] = m
+    self.real[i] = r
+    setattr(self.real[nid], name, r)
+    self.model[nid].attrs[name] = ('ref', m)
+    return i
+
   def del_attr(self, nid, name):
     if name in self.model[nid].attrs:
       delattr(self.real[nid], name)
@@ -444,6 +550,8 @@ class Heap:
           continue
         if m.kind == 'module':
           child = vars(r).get(k)
+        elif m.kind in ('namedtuple', 'struct'):
+          child = getattr(r, k, None)
         else:
           try:
             child = r[k]
@@ -468,7 +576,40 @@ STATICS = [0, 1, 7, 'tag', None, 'x', True, -1, -2]  # hash(-1) == hash(-2) in C
 STATICS_TYPED = STATICS + [False, 1.0, 0.0, -0.0]
 
 
-def gen_build_ops(g, n, statics=STATICS):
+def gen_generic_op(g, obj, name, statics):
+  """A generic pytree container with 2-4 children.  The declaration order of the fields is what matters: flax keeps
+  the children in sorted-key order internally and has to put them back in declaration order, so rotations (orders
+  that are neither sorted nor their own inverse as a permutation, e.g. b c a / c a b) are generated on purpose.
+  The order is a list in the plan (replay files are written with sorted keys)."""
+  kind = g.choice(['namedtuple', 'namedtuple', 'odict', 'odict', 'struct'])
+  n = g.choice([2, 3, 3, 3, 4, 4])
+  fields = sorted(g.sample(GENERIC_FIELDS, n))
+  if g.random() < 0.5:
+    k = g.randrange(1, n)
+    fields = fields[k:] + fields[:k]
+  else:
+    g.shuffle(fields)
+  items = []
+  for j in range(n):
+    q = g.random()
+    if q < 0.45:
+      # fresh Variables that differ in type, value and (sometimes) metadata from their siblings
+      meta = {'tag': g.choice(['x', 'y'])} if g.random() < 0.3 else {}
+      items.append(dict(kind='newvar', target=0, vtype=g.choice(['Param', 'Param', 'BatchStat', 'Cache', 'Custom', 'SubParam']), shape=g.choice([[2], [], [1]]), fill=10 * (j + 1) + g.randrange(5), meta=meta))
+    elif q < 0.60:
+      items.append(dict(kind='var', target=g.randrange(64)))
+    elif q < 0.72:
+      items.append(dict(kind='node', target=g.randrange(64)))
+    elif q < 0.86:
+      items.append(dict(kind='static', target=0, value=g.choice(statics)))
+    else:
+      items.append(dict(kind='array', target=0, shape=g.choice([[2], [2, 2], []]), fill=g.randrange(-3, 9) + 20 * j, jax=g.random() < 0.5))
+  return dict(op='generic', obj=obj, name=name, kind=kind, fields=fields, items=items, label=g.choice(['stats', 'x', None, 0]))
+
+
+def gen_build_ops(g, n, statics=STATICS, generic=False):
+  """generic=True (C03 only) adds generic pytree containers; with generic=False the draws are exactly what they
+  were before that knob existed."""
   ops = [dict(op='new', t='Node')]
   for _ in range(n):
     r = g.random()
@@ -490,11 +631,14 @@ def gen_build_ops(g, n, statics=STATICS):
     elif r < 0.80:
       ops.append(dict(op='ref', obj=a, name=name, target=b, kind=g.choice(['node', 'node', 'var'])))
     elif r < 0.92:
-      if g.random() < 0.12:
+      q = g.random()
+      if q < 0.12:
         # a long list of fresh Variables: integer keys beyond 9 (ordering by index, not by text)
         n_items = g.randrange(11, 15)
         items = [dict(target=g.randrange(64), kind='newvar', fill=j + 1) for j in range(n_items)]
         ops.append(dict(op='container', obj=a, name=name, kind=g.choice(['list', 'list', 'tuple']), items=items))
+      elif generic and q < 0.50:
+        ops.append(gen_generic_op(g, a, name, statics))
       else:
         ops.append(dict(op='container', obj=a, name=name, kind=g.choice(['list', 'dict', 'tuple']), items=[dict(target=g.randrange(64), kind=g.choice(['node', 'var', 'static'])) for _ in range(g.randrange(0, 4))]))
     elif r < 0.96:
@@ -572,6 +716,24 @@ def apply_build_op(h: Heap, op, res=None):
     h.set_container(h.node(op['obj']), op['name'], op['kind'], items)
     if res is not None:
       res.probe('pytree_container')
+  elif k == 'generic':
+    items = []
+    for it in op['items']:
+      if it['kind'] == 'newvar':
+        items.append(('ref', h.new_var(it['vtype'], it['shape'], it['fill'], dict(it['meta']))))
+      elif it['kind'] == 'var' and h.vars:
+        items.append(('ref', h.vars[it['target'] % len(h.vars)]))
+      elif it['kind'] == 'node':
+        items.append(('ref', h.node(it['target'])))
+      elif it['kind'] == 'array':
+        items.append(('array', np.full(tuple(it['shape']), float(it['fill']), np.float32), it['jax']))
+      else:
+        items.append(('static', it.get('value', it['target'] % 5)))
+    h.set_generic(h.node(op['obj']), op['name'], op['kind'], op['fields'], items, op.get('label'))
+    if res is not None:
+      res.probe('generic_pytree_container')
+      if len(op['fields']) >= 3 and not order_is_involution(op['fields']):
+        res.probe('generic_rotated_field_order')
   elif k == 'del':
     h.del_attr(h.node(op['obj']), op['name'])
   elif k == 'setmeta':
